@@ -13,7 +13,7 @@ from fractions import Fraction as Fr
 from lib.rat import R, F, close, dev
 
 ID = "C19"
-QUICK_N = 1800
+QUICK_N = 1500
 THOROUGH_N = 25000
 QUICK_BUDGET_S = 80
 THOROUGH_BUDGET_S = 900
@@ -396,6 +396,22 @@ def domain(case, jc, drv):
     return d
 
 
+def admissible_refs(drv, jc, case):
+    """reference bpms the specification admits (`Spec.refSet`); off the exact stream a total within the float
+    tolerance of the maximum counts as maximal too (the code sums doubles). Returns (refs, near_tie, exact refs)."""
+    exact = [F(x) for x in drv.call("c19.refs", bpms=jc["bpms"], last=jc["last"], override=jc["override"])["ok"]]
+    if (jc["override"] is not None and F(jc["override"]) != 0) or exact_stream(case):
+        return exact, False, exact
+    sp = drv.call("c19.dominant_spec", bpms=jc["bpms"], last=jc["last"])["ok"]
+    totals = [(F(k), F(v)) for k, v in sp["totals"]]
+    if not totals:
+        return exact, False, exact
+    best = max(v for _, v in totals)
+    tol = TOL * (1 + abs(best))
+    refs = [k for k, v in totals if best - v <= tol]
+    return refs, len(refs) > len(exact), exact
+
+
 def stack_bounds_agree(m, jc):
     s = m.stack()
     return Fr(float(s.offset.min())) == F(jc["omin"]) and Fr(float(s.offset.max())) == F(jc["omax"])
@@ -463,7 +479,7 @@ def run_normalize(case, drv):
     except Exception as e:
         impl = ("err", err_class(e))
     mo = drv.call("c19.sv_normalize", bpms=jc["bpms"], last=jc["last"], override=jc["override"])
-    refs = [F(x) for x in drv.call("c19.refs", bpms=jc["bpms"], last=jc["last"], override=jc["override"])["ok"]]
+    refs, near_tie, exact_refs = admissible_refs(drv, jc, case)
     d = domain(case, jc, drv)
     in_dom = d["tempo_ok"] and d["last_ok"] and not (case.get("override") is not None and F(case["override"]) == 0)
     ok, agree, maxdev, detail = True, stack_bounds_agree(m, jc), 0.0, {}
@@ -490,14 +506,14 @@ def run_normalize(case, drv):
                 ok = False
         if "ok" not in mo or len(mo["ok"]) != len(rows):
             agree = False
-        elif ok:
+        elif ok and not near_tie:
             for (a, b), (ma, mb) in zip(rows, mo["ok"]):
                 if a != F(ma) or not close(b, F(mb)):
                     # a different maximiser of an exact tie is a legitimate reference too (spec: any)
                     agree = False
     if not (ok and agree):
         detail = dict(impl=str(impl)[:1500], model=mo, refs=[str(r) for r in refs])
-    return dict(claim="normalize", ok=ok, agree=agree, dom=in_dom, kf=None, tags=tags,
+    return dict(claim="normalize", ok=ok, agree=agree, dom=in_dom, kf=None, tags=tags, boundary=near_tie,
                 nontrivial=len({F(b) for _, b in case["bpms"]}) >= 2, maxdev=maxdev, detail=detail)
 
 
@@ -532,7 +548,7 @@ def run_speed(case, drv):
         impl = ("err", err_class(e))
     mo = drv.call("c19.scroll_speed", has_sv=jc["has_sv"], bpms=jc["bpms"], svs=jc["svs"], omin=jc["omin"], omax=jc["omax"],
                   override=jc["override"])
-    refs = [F(x) for x in drv.call("c19.refs", bpms=jc["bpms"], last=jc["last"], override=jc["override"])["ok"]]
+    refs, near_tie, exact_refs = admissible_refs(drv, jc, case)
     d = domain(case, jc, drv)
     in_dom = (d["tempo_ok"] and d["last_ok"] and not d["tie_at_max"]
               and not (case.get("override") is not None and F(case["override"]) == 0))
@@ -565,11 +581,11 @@ def run_speed(case, drv):
         if "ok" not in mo:
             agree = False
         else:
-            if d["tempo_ok"] and d["last_ok"] and refs:
+            if d["tempo_ok"] and d["last_ok"] and exact_refs:
                 # the part of scroll_speed_spec that is not proved yet: the model's own output must satisfy the
                 # executable specification exactly (model uses the smallest maximiser / the override)
                 mck = drv.call("c19.speed_check", has_sv=jc["has_sv"], bpms=jc["bpms"], svs=jc["svs"], omin=jc["omin"],
-                               omax=jc["omax"], ref=R(refs[0]), out=mo["ok"])["ok"]
+                               omax=jc["omax"], ref=R(exact_refs[0]), out=mo["ok"])["ok"]
                 if not mck["exact"]:
                     agree = False
                     tags.append("model-breaks-spec")
@@ -577,7 +593,7 @@ def run_speed(case, drv):
             b = sorted([(F(t), None if v is None else F(v)) for t, v in mo["ok"]], key=lambda r: (r[0], Fr(-1) if r[1] is None else r[1]))
             if len(a) != len(b):
                 agree = False
-            else:
+            elif not near_tie:
                 for (t1, v1), (t2, v2) in zip(a, b):
                     if t1 != t2 or (v1 is None) != (v2 is None) or (v1 is not None and not close(v1, v2)):
                         agree = False
@@ -587,4 +603,4 @@ def run_speed(case, drv):
     sv_in_force = jc["has_sv"] and any(F(t) >= min(F(p[0]) for p in jc["bpms"]) for t, _ in jc["svs"])
     nontrivial = len({F(b) for _, b in case["bpms"]}) >= 2 or sv_in_force
     return dict(claim="speed", ok=ok, agree=agree, dom=in_dom, kf=kf, tags=tags, nontrivial=nontrivial, maxdev=maxdev,
-                detail=detail)
+                boundary=near_tie, detail=detail)
